@@ -79,6 +79,7 @@ var (
 	flagReplay   = flag.String("replay", "", "replay a violation file natively")
 	flagNoNative = flag.Bool("no-native", false, "skip native replay / witness validation (debugging only; never exits 0 with violations)")
 	flagSolverLog = flag.String("solver-log", "", "write solver input of worker 0 here")
+	flagOutRoot  = flag.String("outroot", "", "directory for evidence/ and out/ (default: the verification root)")
 	flagWall     = flag.Int("wall", 0, "override wall budget per harness (s)")
 	flagOne      = flag.String("prefix", "", "run a single path with this decision prefix (comma separated), verbose")
 )
@@ -110,9 +111,13 @@ func realMain() int {
 	}
 	harnessDir := filepath.Join(*flagVerif, "harness", prop)
 	rtDir := filepath.Join(*flagVerif, "rt")
-	outDir := filepath.Join(*flagVerif, "out", prop)
+	outRoot := *flagVerif
+	if *flagOutRoot != "" {
+		outRoot = *flagOutRoot
+	}
+	outDir := filepath.Join(outRoot, "out", prop)
 	os.MkdirAll(outDir, 0o755)
-	evPath := filepath.Join(*flagVerif, "evidence", prop+".json")
+	evPath := filepath.Join(outRoot, "evidence", prop+".json")
 	os.MkdirAll(filepath.Dir(evPath), 0o755)
 
 	var cfg config
